@@ -260,6 +260,11 @@ class SymInter:
         return Or(*pairs) if pairs else False
 
 
+def _short_repr(x):
+    r = repr(x)
+    return r if len(r) < 80 else r[:77] + '...'
+
+
 class Interp:
     LOOP_FUEL = 64
 
@@ -935,6 +940,13 @@ class Interp:
             raise Raised(exc) from None
 
     def equal(self, a, b):
+        oa, ob = getattr(type(a), 'opaque_standin', False), getattr(type(b), 'opaque_standin', False)
+        if (oa or ob) and a is not b:
+            # a stand-in for "any sub-tree" may stand for a tree equal to another stand-in's, or to a concrete tree
+            other = b if oa else a
+            if (oa and ob) or isinstance(other, (list, tuple)) or type(other).__name__ in (
+                    'Surface', 'GeomExpression', 'CellRef', 'Cell'):
+                raise OutsideSubset(f'equality of an opaque sub-tree with another tree is asked ({a!r} == {_short_repr(b)})')
         if is_sym(a) or is_sym(b):
             if isinstance(a, SymArray) or isinstance(b, SymArray):
                 return SymArray.of(a) == b
@@ -972,6 +984,15 @@ class Interp:
             raise OutsideSubset('membership of a structured symbolic value in a set/dict')
         if isinstance(container, str) and anysym(item):
             raise OutsideSubset('substring test with symbolic value')
+        if isinstance(container, (list, tuple)) and (getattr(type(item), 'opaque_standin', False) or any(
+                getattr(type(x), 'opaque_standin', False) for x in container)):
+            for x in container:
+                if x is item:
+                    return True
+            for x in container:
+                if self.truth(self.equal(item, x)):
+                    return True
+            return False
         try:
             return item in container
         except SymbolicTruthError:
